@@ -42,6 +42,15 @@ def run(ctx) -> None:
     from . import c08
 
     ctx.reuse("C18.mode", c08.trough_predicate)
+    # ... and a labware stays a trough / a plate when it is copied
+    from . import objmodel
+
+    from . import c04 as _c04
+
+    ctx.guard("C18.mode", objmodel.enum_missing, "C18.mode", ("worklists/utils.py",), "' auto' / 'source\\n' and the like are accepted as partition modes")
+
+    ctx.reuse("C18.wiring", _c04.pairing_family)
+    ctx.guard("C18.mode", objmodel.copy_protocol, "C18.mode", ("Labware",), "a copied trough is no trough any more (or shares state): the automatic choice differs from the original's")
 
 
 def _pb():
@@ -127,8 +136,10 @@ def grouping(ctx) -> None:
         raw_key = None
         if isinstance(raw_t, ast.Subscript) and isinstance(raw_t.value, ast.Subscript):
             raw_key, at = raw_t.value.slice, cs.node
-        elif isinstance(raw_t, ast.Name):
-            for d in fv.cfg.reaching()[cs.node].get(raw_t.id, ()):
+        elif isinstance(raw_t, ast.Name) or (isinstance(raw_t, ast.Subscript) and isinstance(raw_t.value, ast.Name) and isinstance(raw_t.slice, ast.Constant)):
+            # (`group = D[<key>]; group[0].append(..)`: the group held in a local)
+            gname_ = raw_t.id if isinstance(raw_t, ast.Name) else raw_t.value.id
+            for d in fv.cfg.reaching()[cs.node].get(gname_, ()):
                 dn = fv.cfg.nodes[d]
                 if dn.kind == "stmt" and isinstance(dn.ast, ast.Assign) and isinstance(dn.ast.value, ast.Subscript):
                     raw_key, at = dn.ast.value.slice, d
@@ -187,7 +198,7 @@ def grouping(ctx) -> None:
             lbody = fv.cfg.loop_body[n.id]
             apps_ = [cs for cs in fv.calls() if cs.node in lbody and isinstance(cs.call.func, ast.Attribute) and cs.call.func.attr == "append" and len(cs.call.args) == 1]
             jumps = [m for m in (fv.cfg.nodes[i] for i in lbody) if m.kind == "stmt" and isinstance(m.ast, (ast.Break, ast.Continue, ast.Return))]
-            if is_keys and len(apps_) == 1 and not jumps and not fv.controlling(apps_[0].node, within=lbody):
+            if is_keys and len(apps_) == 1 and not jumps and not fv.controlling(apps_[0].node, within=lbody, skip_raising=True):
                 arg = fv.def_expr(apps_[0].call.args[0], apps_[0].node)[0]
                 if isinstance(arg, ast.Subscript) and is_name(arg.slice, n.ast.target.id):
                     ok_order = True
@@ -203,6 +214,14 @@ def grouping(ctx) -> None:
                 cu = _component_unpack(fv, n, lbody)
                 if cu is not None and isinstance(arg, ast.Tuple) and len(arg.elts) == 3:
                     ok_order = True
+                # the group of this key held in one local (`group = groups[column]`), its three components re-indexed and appended
+                whole = [m for m in (fv.cfg.nodes[i] for i in lbody) if m.kind == "stmt" and isinstance(m.ast, ast.Assign) and isinstance(m.ast.targets[0], ast.Name)
+                         and isinstance(m.ast.value, ast.Subscript) and is_name(m.ast.value.slice, n.ast.target.id) and not fv.controlling(m.id, within=lbody, skip_raising=True)]
+                if len(whole) == 1 and isinstance(arg, ast.Tuple) and len(arg.elts) == 3:
+                    gname = whole[0].ast.targets[0].id
+                    comps = [sorted({x.slice.value for x in ast.walk(e) if isinstance(x, ast.Subscript) and is_name(x.value, gname) and isinstance(x.slice, ast.Constant)}) for e in arg.elts]
+                    if comps == [[0], [1], [2]]:
+                        ok_order = True
     if not ok_order and not any_sort and any(isinstance(x, ast.Call) and call_fname(x) in ("sorted", "sort", "argsort", "lexsort") for n in fv.cfg.nodes if n.ast is not None for x in own_walk(n.ast)):
         ok_order = None if not any(isinstance(n.ast, ast.Assign) and isinstance(n.ast.value, ast.ListComp) for n in fv.cfg.nodes if n.kind == "stmt") else ok_order
     ctx.rep.check(ok_order, rule.replace("group-integrity", "order"), f"{f.qualname}/group-order", "groups are emitted for sorted(keys), every key once",
